@@ -37,15 +37,17 @@ Reject(clause) == /\ PrintT(<<"REJECT", ToJson([ep |-> E.ep, clause |-> clause])
                   /\ NextEp(FALSE)
                   /\ UNCHANGED <<P, call, grad, d, ordJ, rows, sweeps, pending, mt, task, featCt>>
 
-TExpected(l) == IF l \in call.inputs THEN Plus(E.grad0[l], SharedUpdate(l))
-                ELSE IF l \in AllTaskParams THEN Plus(E.grad0[l], TaskUpdate(l))
-                ELSE E.grad0[l]
+TExpectedT(T, l) == IF l \in call.inputs THEN Plus(E.grad0[l], SharedUpdateT(T, l))
+                    ELSE IF l \in AllTaskParams THEN Plus(E.grad0[l], TaskUpdateT(T, l))
+                    ELSE E.grad0[l]
+TExpected(l) == TExpectedT(Tables, l)
 
-RECURSIVE HCatBlocks(_, _)
-HCatBlocks(o, i) == IF o = <<>> THEN <<>> ELSE RowBlock(i, Head(o)) \o HCatBlocks(Tail(o), i)
+RECURSIVE HCatBlocks(_, _, _)
+HCatBlocks(T, o, i) == IF o = <<>> THEN <<>> ELSE RowBlockT(T, i, Head(o)) \o HCatBlocks(T, Tail(o), i)
 MatrixOK == \/ call.inputs = {}
-            \/ \E o \in PermSeqs(call.inputs) :
-                  E.matrix = [i \in 1..NTasks |-> HCatBlocks(o, i)]
+            \/ LET T == Tables IN
+               \E o \in PermSeqs(call.inputs) :
+                  E.matrix = [i \in 1..NTasks |-> HCatBlocks(T, o, i)]
 
 TAgg == /\ ep <= NEp /\ stage = "agg" /\ MatrixOK
         /\ stage' = "ret"
@@ -53,7 +55,7 @@ TAgg == /\ ep <= NEp /\ stage = "agg" /\ MatrixOK
 TAggReject == /\ ep <= NEp /\ stage = "agg" /\ ~MatrixOK
               /\ Reject("row_i_of_the_matrix_is_not_the_gradient_of_loss_i_through_the_features")
 
-RetOK == \A l \in Leaves(P) : E.grad1[l] = TExpected(l)
+RetOK == LET T == Tables IN \A l \in Leaves(P) : E.grad1[l] = TExpectedT(T, l)
 FirstBad == CHOOSE l \in Leaves(P) : E.grad1[l] # TExpected(l)
 
 TRet == /\ ep <= NEp /\ stage = "ret" /\ RetOK
